@@ -9,10 +9,34 @@ func bcast(tags ...int) op        { return op{K: "bcast", Tags: tags} }
 func byid(peers ...int) op        { return op{K: "byid", Peers: peers} }
 func release(sid int, ok bool) op { return op{K: "release", Sid: sid, Ok: ok} }
 func streams(tags ...int) op      { return op{K: "streams", Tags: tags} }
+func readerr(sid int) op          { return op{K: "readerr", Sid: sid} }
+func rmtagsid(sid int, tags ...int) op {
+	return op{K: "rmtagsid", Sid: sid, Tags: tags}
+}
+func addtags(sid int, tags ...int) op { return op{K: "addtags", Sid: sid, Tags: tags} }
+
+var ownerLock, ownerUnlock = op{K: "ownerlock"}, op{K: "ownerunlock"}
 
 // hand-made scenarios: every mechanism of the property at least once, deterministic
 func fixedCases() []caseDesc {
 	var cs []caseDesc
+	// I: the pool's owner (lock order owner mutex -> pool.mu, close hook takes the owner mutex and looks at the pool): a
+	// stream ends while the owner is inside its section; the owner changes tags of another stream, broadcasts, sends by
+	// id, asks for streams and adds a stream with the hook parked; then leaves the section (pubsub: remoteMu held across
+	// AddTagsCtx / RemoveTagsById, onStreamClose takes remoteMu)
+	for cap := 1; cap <= 2; cap++ {
+		cs = append(cs, caseDesc{Workers: 1, DialCap: 2, Kinds: "fixed-owner", Ops: []op{
+			add(1, cap, []int{1}, false, true), add(2, cap, []int{1, 2}, false, false), ownerLock, readerr(1), rmtagsid(2, 2),
+			bcast(1), release(2, true), streams(1, 2), byid(1, 2), addtags(2, 3), add(3, cap, []int{1}, false, false), ownerUnlock,
+			streams(1, 2, 3), bcast(1), release(2, true), release(3, true)}})
+		// J: two streams end inside one section (MsgSend error / MsgRecv error), a third one between sections; hooks race
+		// for the owner mutex after the unlock; a close-gated stream's removal happens inside the section
+		cs = append(cs, caseDesc{Workers: 1, DialCap: 2, Kinds: "fixed-owner", Ops: []op{
+			add(1, cap, []int{1}, false, false), add(2, cap, []int{1, 2}, false, true), add(3, cap, []int{2}, true, false), add(1, cap, []int{1, 1}, false, false),
+			bcast(1), bcast(2), ownerLock, release(1, false), readerr(2), bcast(1, 2), streams(1, 2), readerr(3), ownerLock,
+			{K: "closerel", Sid: 3}, rmtagsid(3, 2), rmtagsid(4, 1), byid(1), ownerUnlock, streams(1, 2), ownerUnlock,
+			readerr(4), streams(1), ownerLock, bcast(1), ownerUnlock}})
+	}
 	for cap := 1; cap <= 3; cap++ {
 		// A: stream 1 blocked forever, stream 2 healthy; many broadcasts; stream 2 keeps receiving everything
 		a := caseDesc{Workers: 1, DialCap: 2, Kinds: "fixed", Ops: []op{add(1, cap, []int{1}, false, false), add(2, cap, []int{1}, false, true)}}
@@ -117,7 +141,35 @@ func genCase(r *vlib.Rand, k int) caseDesc {
 		return 1 + r.Intn(nStreams)
 	}
 	nOps := 6 + r.Intn(34)
+	owner := r.Chance(1, 2) // the harness also plays the pool's owner: sections with the owner's mutex held
+	locked := false
+	if owner {
+		d.Kinds = "random-owner"
+	}
 	for len(d.Ops) < nOps {
+		if owner && r.Chance(1, 8) {
+			if locked {
+				d.Ops = append(d.Ops, ownerUnlock)
+			} else {
+				d.Ops = append(d.Ops, ownerLock)
+			}
+			locked = !locked
+			continue
+		}
+		if locked && r.Chance(1, 3) {
+			// inside the owner's section: streams end (their hooks park), tags of other streams change
+			switch r.Intn(5) {
+			case 0, 1:
+				d.Ops = append(d.Ops, readerr(anySid()))
+			case 2:
+				d.Ops = append(d.Ops, release(anySid(), false))
+			case 3:
+				d.Ops = append(d.Ops, op{K: "rmtagsid", Sid: anySid(), Tags: pickTags(r)})
+			default:
+				d.Ops = append(d.Ops, op{K: "addtags", Sid: anySid(), Tags: pickTags(r)})
+			}
+			continue
+		}
 		x := r.Intn(100)
 		switch {
 		case x < 28:
